@@ -127,6 +127,10 @@ class SharedMemoryFileBufferedCollection(FileBufferedCollection):
                     if cached_data["modified"]:
                         if cached_data["metadata"] != self._get_file_metadata():
                             raise MetadataError(self._filename, cached_data["contents"])
+                        # The buffer entry holds the current data. This object
+                        # may not have accessed the buffer since another object
+                        # bound to the same file changed it.
+                        self._data = cached_data["contents"]
                         self._save_to_resource()
                 finally:
                     # Whether or not an error was raised, the cache must be
